@@ -73,7 +73,7 @@ Theorem cancel_kill_then_answer : forall lookup d caller req opts ikey inv x,
     pending d (caller, req) ikey inv x -> inv_canceled inv = false ->
     callee_can_cancel lookup inv = true ->
     let d1 := fst (cancel lookup d caller req opts) in
-    (forall yopts args kw, opt_bool yopts "progress" = false -> inv_inprogress inv = false ->
+    (forall yopts args kw, opt_bool yopts "progress" = false ->
        exists d2, sync_yield d1 (fst ikey) (snd ikey) yopts args kw = (d2, [(caller, RResult req [] args kw)]) /\
                   gone d2 (caller, req) ikey) /\
     (forall det err args kw,
@@ -85,7 +85,7 @@ Print Assumptions cancel_kill_then_answer.
 Example cancel_kill_ex :
     dealer_wf (lk 1 0) d3 /\
     (exists ikey inv x, pending d3 (10, 7) ikey inv x /\ inv_canceled inv = false /\
-                        callee_can_cancel (lk 1 0) inv = true /\ inv_inprogress inv = false) /\
+                        callee_can_cancel (lk 1 0) inv = true) /\
     snd (cancel (lk 1 0) d3 10 7 kill_opts) = [(11, RInterrupt 1 [("reason", vuri e_canceled); ("mode", vstr "kill")])] /\
     snd (sync_yield d4 11 1 [] [vnat 3] []) = [(10, RResult 7 [] [vnat 3] [])].
 Proof.
